@@ -9,11 +9,10 @@ namespace Icinga.C05
 
 /-- The clauses of the specification that are proved of every trace of the model: all of them except
     `fixed_started_when_triggered` and `fixed_end_has_start` — a DowntimeStart request for every *fixed*
-    downtime that took effect —, which are false of the code (F-C05c), and
-    `trigger_not_before_start` (F-C05e).  Their flexible counterparts
+    downtime that took effect —, which are false of the code (F-C05c).  Their flexible counterparts
     `started_when_triggered` and `end_has_start` are proved. -/
 def coreMask : Clause → Bool
-  | .fixedStartedWhenTriggered | .fixedEndHasStart | .triggerNotBeforeStart => false
+  | .fixedStartedWhenTriggered | .fixedEndHasStart => false
   | _ => true
 
 /-- Everything that is known of a reachable model state and the bookkeeping that follows it. -/
@@ -69,7 +68,8 @@ theorem specStep_core {T : Int} {sp : SpecSt} {st : St} (h : TInv T sp st) (op :
     chkFixedStarted_model sp st op hrel h.wfl hnow,
     chkDepth_model sp st op hrel hnd, chkWriteOnce_model sp st op hrel hnd, chkWindow_model sp st op hrel hnd,
     chkWindowGone_model sp st op hrel hnd, chkStartOnce_model sp st op hrel hnd op.now hs',
-    chkStarted_model sp st op hrel hnd h.qinv h.xinv, chkEndHasStart_model sp st op hrel hnd h.qinv h.xinv]
+    chkStarted_model sp st op hrel hnd h.qinv h.xinv, chkEndHasStart_model sp st op hrel hnd h.qinv h.xinv,
+    chkTrigStart_model sp st op hrel hnd]
   simp
 
 theorem trace_core (ops : List Op) : ∀ (sp : SpecSt) (st : St) (T : Int), TInv T sp st → WF T ops →
